@@ -270,6 +270,36 @@ def keyed_cache_sites(prog, ci):
                             continue                     # the cache bookkeeping itself
                         reads |= _self_reads(s2)
                     missing = sorted(reads - key_attrs - written)
+                    # ... and everything taken from the method's parameters (class methods / factories): the cached value and the
+                    # key are compared as sets of parameter-rooted access paths (p, p.M, p['M2']) with locals resolved
+                    params = {a.arg for a in fi.node.args.args + fi.node.args.kwonlyargs} - {"self", "cls"}
+
+                    def atoms(e):
+                        res = set()
+
+                        def visit(n, top=True):
+                            if isinstance(n, (ast.Attribute, ast.Subscript)):
+                                root = n
+                                while isinstance(root, (ast.Attribute, ast.Subscript)):
+                                    root = root.value
+                                if isinstance(root, ast.Name) and root.id in params and \
+                                        (isinstance(n, ast.Attribute) or isinstance(n.slice, ast.Constant)):
+                                    res.add(norm_text(n))
+                                    return
+                            if isinstance(n, ast.Name) and n.id in params and isinstance(n.ctx, ast.Load):
+                                res.add(n.id)
+                                return
+                            for c_ in ast.iter_child_nodes(n):
+                                visit(c_)
+                        visit(e)
+                        return res
+                    val = inline_single_defs(fi.node, st.value, depth=4)
+                    k_atoms, v_atoms = atoms(key), atoms(val)
+
+                    def covered(a_):
+                        return any(a_ == k_ or a_.startswith(k_ + ".") or a_.startswith(k_ + "[") for k_ in k_atoms) or \
+                            a_.replace("['", ".").replace("']", "") in {k_.replace("['", ".").replace("']", "") for k_ in k_atoms}
+                    missing += sorted(a_ for a_ in v_atoms if not covered(a_))
                     out.append((fi, st, t.value.attr, key, missing))
     return out
 
@@ -283,9 +313,10 @@ def check_keyed_caches(ctx, prog, classes):
         for fi, st, cname, key, missing in keyed_cache_sites(prog, ci):
             n += 1
             if missing:
-                ctx.violated(fi, st, "%s.%s stores its result in the class-level cache %s under the key %s, which leaves out self.%s: "
-                             "an object that differs only in that attribute silently receives the value computed for another one"
-                             % (ci.name, fi.name, cname, norm_text(key)[:100], ", self.".join(missing)), text="cache key " + cname)
+                ctx.violated(fi, st, "%s.%s stores its result in the class-level cache %s under the key %s, which leaves out %s: "
+                             "a call that differs only in that silently receives the value computed for another one"
+                             % (ci.name, fi.name, cname, norm_text(key)[:100], ", ".join(m_ if "." in m_ or "[" in m_ else "self." + m_
+                                                                                         for m_ in missing)), text="cache key " + cname)
             else:
                 ctx.holds(fi, st, "%s.%s: cache %s is keyed by every attribute the value is computed from" % (ci.name, fi.name, cname))
     src = ("class T:\n    _cache = {}\n    def build(self):\n        law = self._law\n        key = (law.E, self._max)\n"
